@@ -326,13 +326,19 @@ class BodyView:
         t = self.blocks[bb]["term"]
         if t["k"] == "switch":
             succs = list(dict.fromkeys(t["t"]))
-            reach = {x: self.reach_set(x) for x in succs}
+            # reachability that does not pass through the switch block again: inside a loop the aborting side
+            # would otherwise be reachable from the continuing side through the next iteration
+            reach = {x: self._reach_avoiding(x, bb) for x in succs}
             for x in succs:
                 others = set()
                 for o in succs:
                     if o != x:
                         others |= reach[o]
                 excl = reach[x] - others
+                # an outcome whose exclusive region returns from the function is ordinary control flow
+                # (a loop exit, an early return), not an abort path
+                if any(self.blocks[y]["term"]["k"] == "ret" for y in excl):
+                    continue
                 if not excl:
                     continue
                 has_panic = False
@@ -357,6 +363,19 @@ class BodyView:
                     break
         self._ag[bb] = res
         return res
+
+    def _reach_avoiding(self, start, avoid):
+        if start == avoid:
+            return set()
+        seen = {start}
+        work = [start]
+        while work:
+            x = work.pop()
+            for y in self.succ[x]:
+                if y != avoid and y not in seen:
+                    seen.add(y)
+                    work.append(y)
+        return seen
 
     def feeds_only_abort_guards(self, bb, also=None):
         """Does the value produced by the call ending block bb flow (through copies, negations,
